@@ -46,12 +46,15 @@ func (c *Ctx) checkFileHandlerGates() {
 		name    string
 		methods []string
 	}{{download, "Handler.Download", []string{"GET", "HEAD"}}, {upload, "Handler.Upload", []string{"POST", "PUT", "HEAD"}}} {
-		for _, fn := range c.funcsCalling(spec.sink, "server") {
+		for _, sfn := range c.funcsCalling(spec.sink, "server") {
+			// the HTTP handler: the function that calls the media handler, or - when the handler was
+			// split into phases - the nearest HTTP handler up the chain of sole callers
+			fn := c.climbUntil(sfn, isHTTPHandler)
 			if !isHTTPHandler(fn) {
 				continue
 			}
 			r.Func(fk(fn))
-			for _, s := range core.CallsTo(fn, spec.sink) {
+			for _, s := range core.CallsTo(sfn, spec.sink) {
 				sink := s.(ssa.Instruction)
 				base := fmt.Sprintf("%s: %s", fk(fn), spec.name)
 				// API key
@@ -59,11 +62,11 @@ func (c *Ctx) checkFileHandlerGates() {
 					ex, ok := v.(*ssa.Extract)
 					return ok && ex.Index == 0 && core.IsCallTo(checkKey)(ex.Tuple)
 				}, true)
-				ok, cnt := core.GuardedBy(fn, sink, gKey)
+				ok, cnt := core.GuardedBy(sfn, sink, gKey)
 				r.Check(ok && cnt[0] > 0, "C16.1-handler-gates", base+" / API key valid", c.pos(sink), "", "the media handler is reached without a valid API key")
 				// credentials
 				var auths []ssa.CallInstruction
-				for _, a := range core.CallsTo(fn, authReq) {
+				for _, a := range c.regionCallsTo(fn, authReq) {
 					auths = append(auths, a)
 				}
 				if len(auths) == 0 {
@@ -75,9 +78,9 @@ func (c *Ctx) checkFileHandlerGates() {
 					gErr = append(gErr, core.NilGuard("auth err==nil", errResultOf(a, 2), true))
 					gChal = append(gChal, core.NilGuard("challenge==nil", errResultOf(a, 1), true))
 				}
-				ok, _ = core.GuardedBy(fn, sink, gErr...)
+				ok, _ = core.GuardedBy(sfn, sink, gErr...)
 				r.Check(ok, "C16.1-handler-gates", base+" / credentials valid", c.pos(sink), "", "the media handler is reached although authentication failed")
-				ok, _ = core.GuardedBy(fn, sink, gChal...)
+				ok, _ = core.GuardedBy(sfn, sink, gChal...)
 				r.Check(ok, "C16.1-handler-gates", base+" / no pending challenge", c.pos(sink), "", "the media handler is reached while a multi-step challenge is pending")
 				gUid := core.BoolGuard("!uid.IsZero()", core.IsCallTo(isZero), false)
 				gs := []core.Guard{gUid}
@@ -92,7 +95,7 @@ func (c *Ctx) checkFileHandlerGates() {
 						return false, false
 					}})
 				}
-				ok, cnt = core.GuardedBy(fn, sink, gs...)
+				ok, cnt = core.GuardedBy(sfn, sink, gs...)
 				r.Check(ok && cnt[0] > 0, "C16.1-handler-gates", base+" / authenticated user", c.pos(sink), "", "the media handler is reached for an unauthenticated request")
 				// method: the sink is cut off unless Method equals one of the implemented ones
 				var gm []core.Guard
@@ -108,7 +111,7 @@ func (c *Ctx) checkFileHandlerGates() {
 						return false, false
 					}})
 				}
-				ok, _ = core.GuardedBy(fn, sink, gm...)
+				ok, _ = core.GuardedBy(sfn, sink, gm...)
 				r.Check(ok, "C16.1-handler-gates", base+" / implemented method", c.pos(sink), "", "the media handler is reached for an HTTP method the endpoint does not implement")
 				// refusal edges are effect-free with respect to media handler and store
 				fe := core.FailEdges(fn, append([]core.Guard{gKey}, gErr...)...)
@@ -170,7 +173,8 @@ func (c *Ctx) checkBodyLimiter() {
 	upload := c.method("server/media", "Handler", "Upload")
 	maxF := c.globalStructField("server", "globals", "maxFileUploadSize")
 	r.Floor("C16.2-limiter-before-parse", 2)
-	for _, fn := range c.funcsCalling(upload, "server") {
+	for _, sfn := range c.funcsCalling(upload, "server") {
+		fn := c.climbUntil(sfn, isHTTPHandler)
 		if !isHTTPHandler(fn) {
 			continue
 		}
